@@ -320,7 +320,8 @@ def main(argv: list[str] | None = None) -> int:
 
     # ---- report ---------------------------------------------------------------
     for sig, f in sorted(known_hit.items()):
-        print(f"KNOWN-FINDING: property={prop} {f['what']} [signature={sig}; observed {merged['counters'].get('violation:' + sig, 0)}x]")
+        what = " ".join(str(f["what"]).split())[:400]
+        print(f"KNOWN-FINDING: property={prop} {what} [signature={sig}; observed {merged['counters'].get('violation:' + sig, 0)}x]")
     rc = 0
     replay_paths = []
     seen_sigs = set()
@@ -330,7 +331,7 @@ def main(argv: list[str] | None = None) -> int:
         seen_sigs.add(v["signature"])
         path = write_replay(prop, v, seed, tier)
         replay_paths.append(path)
-        print(f"violation: signature={v['signature']} what={v['what']}")
+        print(f"violation: signature={v['signature']} what={' '.join(str(v['what']).split())[:600]}")
         print(f"VIOLATION property={prop} replay={path}")
         rc = 1
     if rc == 0 and merged["inconclusive"]:
